@@ -268,6 +268,11 @@ def build(tier):
     s.add(z3.Not(z3.And(r2[0] == r1[0], r2[1] == r1[1])))
     rep.add(core.smt("C03/canary/asin-is-not-even", PROP, s, text="canary: asin(-z) = asin(z) must be refutable", expect="sat", kind="canary", budget_s=120))
     rep.replayers["C03/"] = replay_model
+    # bounded stand-in: all identities (claimed or not) natively on a lattice + seeded points; never counted as proved
+    from vf.contracts import C03_bounded
+
+    C03_bounded.run(rep, tier)
+    rep.replayers["C03/bounded"] = C03_bounded.replay
     return rep
 
 
@@ -281,6 +286,12 @@ def main(tier, only=None):
 def replay(path):
     d = json.load(open(path))
     o = core.Obligation(id=d["obligation"], prop=PROP, model=d.get("model"), meta=d.get("meta") or {})
+    if (o.meta or {}).get("part") == "bounded":
+        from vf.contracts import C03_bounded
+
+        again = C03_bounded.rerun(o.meta)
+        print(json.dumps(dict(recorded=o.meta.get("fails"), still_failing=again), indent=1, default=str))
+        return 1 if again else 0
     info = replay_model(o)
     print(json.dumps(info, indent=1, default=str))
     return 1 if info.get("replayed") else 0
